@@ -211,7 +211,8 @@ def _run_cli_once(case: dict, env_extra: dict | None = None, cwd: str | None = N
         if sentinel is not None:
             with open(p['out'], 'wb') as f:
                 f.write(sentinel)
-        rel = (lambda x: os.path.relpath(x, d)) if case.get('relative_paths') else (lambda x: x)     # paths as typed from inside the project directory
+        base = os.path.join(d, case.get('cli_cwd', ''))      # the directory the command is typed in (relative_paths only)
+        rel = (lambda x: os.path.relpath(x, base)) if case.get('relative_paths') else (lambda x: x)     # paths as typed from inside that directory
         args = [PYTHON, '-m', 'bespokeasm', 'compile', rel(p['main']), '-c', p['config'], '-o', p['out']]
         if case.get('start'):
             args += ['-s', str(case['start'])]
@@ -231,7 +232,7 @@ def _run_cli_once(case: dict, env_extra: dict | None = None, cwd: str | None = N
         if env_extra:
             env.update(env_extra)
         try:
-            cp = subprocess.run(args, env=env, cwd=cwd or d, capture_output=True, timeout=case.get("timeout", 90.0))
+            cp = subprocess.run(args, env=env, cwd=cwd or (base if case.get('relative_paths') else d), capture_output=True, timeout=case.get("timeout", 90.0))
             res = {'status': 'ok' if cp.returncode == 0 else 'err', 'rc': cp.returncode,
                    'stdout': cp.stdout.decode('utf-8', 'replace')[-2000:],
                    'msg': cp.stderr.decode('utf-8', 'replace')[-600:]}
